@@ -136,6 +136,21 @@ func proveSite(p *core.Pather, s panicSite) string {
 		} else {
 			idx = x.(*ssa.Index).Index
 		}
+		// a constant index into an array (the compiler has already checked it) or below a constant length
+		if k, isK := core.ConstInt(idx); isK && k >= 0 {
+			var xt types.Type
+			if ia, ok := x.(*ssa.IndexAddr); ok {
+				xt = ia.X.Type()
+			} else {
+				xt = x.(*ssa.Index).X.Type()
+			}
+			if pt, ok := xt.Underlying().(*types.Pointer); ok {
+				xt = pt.Elem()
+			}
+			if at, ok := xt.Underlying().(*types.Array); ok && k < at.Len() {
+				return "constant index into an array of sufficient length"
+			}
+		}
 		i := p.Path(idx)
 		if guardHolds(conds, "("+i+">="+ln+")=F", "("+i+"<"+ln+")=T", "("+ln+"<="+i+")=F", "("+ln+">"+i+")=T") {
 			return "index guarded by i < len(base)"
@@ -280,6 +295,11 @@ func r14guard(c *core.Ctx) {
 			if reason, ok := c14Reasoned[base]; ok && reason != "" {
 				excepted++
 				c.Except(R, key, s.in.Pos(), reason)
+				continue
+			}
+			if !c14Baseline[base] {
+				// new or rewritten code: not one of the sites that were proved or argued on the reference tree
+				c.SoftUndecided("R14.guard: %s %s in %s is not provably in range by a guard form the rule knows, and it is not a site of the reference tree (new or restructured code): not decided", s.kind, clip(s.expr), shortFn(f))
 				continue
 			}
 			c.Fail(R, key, s.in.Pos(), "%s %s in %s is not provably in range: no dominating guard of a recognised form bounds it and it is not one of the argued exceptions — an adversarial length or count can make the decoder panic here", s.kind, clip(s.expr), shortFn(f))
@@ -528,24 +548,7 @@ func r14loop(c *core.Ctx) {
 			c.SoftUndecided("%s: expected one fragment loop, found %d", name, found)
 		}
 	}
-	// parseLength sets *repeat only together with a non-zero fragment length (16384*k, k in 1..4): R4.len
-	f := mustFunc(c, pAper, "perBitData.parseLength")
-	p := core.NewPather(f)
-	okR := false
-	for _, b := range f.Blocks {
-		for _, in := range b.Instrs {
-			if st, ok := in.(*ssa.Store); ok && p.Path(st.Addr) == "p2" {
-				if v, isB := core.ConstBool(st.Val); isB && v {
-					for _, in2 := range b.Instrs {
-						if r, isR := in2.(*ssa.Return); isR && strings.HasPrefix(p.Path(r.Results[0]), "(16384*") {
-							okR = true
-						}
-					}
-				}
-			}
-		}
-	}
-	c.Check(okR, R, "aper.parseLength:repeat-implies-progress", f.Pos(), "*repeat = true only with length 16384*k (k checked to be 1..4)", "parseLength must set *repeat only when it returns a non-zero fragment length (otherwise the fragment loops spin on adversarial input)")
+	r14repeatX(c, R)
 }
 
 func r14alloc(c *core.Ctx) {
